@@ -109,6 +109,9 @@ def analyse(rep, prog, oks):
                             rep.violation("R2", "reject:jump-distance-formula", "%s: the 100 km test does not measure the great-circle distance between the previously published position and the candidate: %s"
                                           % (label.split("/")[0], T.show(T.nf(last.get("a_term")), 500)))
             elif rv == 1 and gps:
+                res = [e["some"] for e in o.events if e["kind"] == "get_position_result"]
+                if res and not res[-1]:
+                    rep.violation("R2", "accept:unpairable", "%s: the candidate test returns true on a path where the two stored reports could not be paired into a location, so they stay stored and are paired with later reports" % label.split("/")[0])
                 pos = coords.fields[cn.index("position")] if "position" in cn else None
                 kd = coords.fields[cn.index("kilo_distance")] if "kilo_distance" in cn else None
                 vac = [e["vacant"] for e in o.events if e["kind"] == "map_vacancy"]
@@ -140,6 +143,8 @@ def analyse(rep, prog, oks):
                     if not is_none(kd):
                         rep.violation("R3", "publish:distance-without-position", "%s: the record ends with no position but a distance %r" % (label, kd))
     rep.instance(r2, "reject-reasons", sample={"range_reject_seen": range_reject, "jump_reject_seen": jump_reject})
+    if getattr(rep, "no_floors", False) and not labels:
+        return      # alternate pass of the thorough tier with no further grammar path of these frame kinds
     if not range_reject:
         rep.violation("R2", "reject:range-test-missing", "no path rejects a candidate whose distance from the receiver exceeds max_range (operands: haversine(receiver, candidate) > max_range)")
     if not jump_reject:
@@ -158,7 +163,7 @@ def analyse(rep, prog, oks):
 def run(rep, tier, replay=None):
     prog = facts.load("std")
     run_, oks, errs = decode_paths(prog, 14)
-    analyse(rep, prog, oks)
+    tracker.alt_passes(rep, tier, oks, lambda: analyse(rep, prog, oks))
     rep.assume("cpr::get_position is replaced by a stub yielding None or an arbitrary position (its content is C05); numeric accuracy and threshold behaviour of f64 are not decided")
     rep.assume("the history-level statement (most recent even and odd report since the last clear) follows from R1+R2 by induction, not mechanised")
     return rep.finish(
